@@ -12,6 +12,8 @@ verus! {
 //@enum ScriptBit @ src/script/script_bit.rs clonespec
 //@struct Script @ src/script/mod.rs clone
 //@struct Hash @ src/hash/mod.rs clone
+//@enum SigHash @ src/transaction/sighash.rs clone copy partialeq eq
+//@enumtable SigHash @ src/transaction/sighash.rs from_u8
 //@struct HashCache @ src/transaction/sighash.rs clone
 //@struct TxIn @ src/transaction/txin.rs clone
 //@struct TxOut @ src/transaction/txout.rs clone
@@ -19,6 +21,7 @@ verus! {
 //@include spec/script.rs
 //@include spec/script_tok.rs
 //@include spec/tx.rs
+//@include spec/sighash.rs
 //@include shims/varint.rs
 impl HashCache {
 //@stub HashCache::new
@@ -28,6 +31,7 @@ impl Script {
 //@stub Script::get_script_length
 //@stub Script::from_bytes
 //@stub Script::from_coinbase_bytes
+//@stubrest Script
 }
 impl TxIn {
 //@fn TxIn::to_bytes_impl
@@ -35,6 +39,7 @@ impl TxIn {
 //@fn TxIn::is_coinbase_outpoint_impl
 //@fn TxIn::is_coinbase_impl
 //@fn TxIn::read_in
+//@stubrest TxIn
 }
 impl TxOut {
 //@fn TxOut::to_bytes_impl
@@ -42,6 +47,7 @@ impl TxOut {
 //@fn TxOut::new
 //@fn TxOut::get_satoshis
 //@fn TxOut::read_in
+//@stubrest TxOut
 }
 impl Hash {
 //@stub Hash::sha_256d
@@ -59,6 +65,7 @@ impl Transaction {
 //@fn Transaction::get_id_impl
 //@fn Transaction::is_coinbase_impl
 //@fn Transaction::from_bytes_impl
+//@stubrest Transaction
 }
 } // verus!
 fn main() {}
